@@ -2,7 +2,12 @@
 
 Every place where the lib's MIR can tell style editions apart is collected from the dump: comparison calls on StyleEdition,
 switchInt on a StyleEdition discriminant, and the per-option style_edition_default functions. For each, the solver decides that
-the outcome is the same for all members of {2015, 2018, 2021}. Identity with the pinned release is outside this technique."""
+the outcome is the same for all members of {2015, 2018, 2021}.
+
+Second half (identity with the pinned release), three frozen kernels only: (d) Config::default_with_style_edition for a symbolic released style
+edition against the table the pinned release printed (reference/c09_release_defaults.json), (e) WidthHeuristics::scaled against the release's
+computation written independently in IEEE binary32 for max_width 20..=10000, (f) which comparator compare_items consults per released style
+edition.  Everything else about identity with the release is outside this technique."""
 from common import *
 from mirsym.mirparse import block_parsed
 
@@ -14,7 +19,7 @@ def build(ctx):
     ctx.level = 'other'
     eng = ctx.engine('lib', loop_bound=6)
     ctx.bounds = {'style editions': 'the class {2015, 2018, 2021} (symbolic pair)', 'sites': 'every comparison call / discriminant switch on StyleEdition and every style_edition_default in the lib MIR'}
-    ctx.outside = ['byte-identity with the pinned release 1.8.0 (needs two builds and the formatter)', 'style editions flowing through types other than StyleEdition (none today: '
+    ctx.outside = ['byte-identity with the pinned release 1.8.0 beyond the three frozen kernels (option defaults per released style edition, the scaled width heuristics, the comparator choice of compare_items): the rest needs two builds and the whole formatter', 'style editions flowing through types other than StyleEdition (none today: '
                    'grep StyleEdition as IntToInt casts is part of the scan)', 'language-edition (not style-edition) dependent parsing']
     ctx.assumptions = ['rustc_span::edition::Edition::partial_cmp is the derived discriminant order', 'config plumbing (src/config: conversion, printing, parsing of the option itself) legitimately distinguishes editions and is listed, not checked']
     se_v = eng.enum_variants('StyleEdition')
@@ -169,6 +174,9 @@ def build(ctx):
         raise Inconclusive('only %d style_edition_default functions found' % nd)
     ctx.notes.append('%d style_edition_default functions' % nd)
     ctx.cover('cover/class-has-three-members', [z3.Distinct(s1, s2)] + in_class)
+    part_release_defaults(ctx, eng)
+    part_release_widths(ctx, eng)
+    part_release_ordering(ctx, eng)
 
 
 def deref(eng, st, v):
@@ -273,6 +281,314 @@ def const_operand(eng, fn, stmts, op):
         return None
     vi = eng.variant_index('StyleEdition', txt.split('::')[-1])
     return vi
+
+
+# ----------------------------------------------------------------------------- (d) option defaults of every released style edition = the pinned release
+REFERENCE = os.path.join(VERIF, 'reference', 'c09_release_defaults.json')
+RELEASED = ['2015', '2018', '2021', '2024']
+
+
+def declared_defaults(eng):
+    """[(unit struct, declared config type)] in source order of the config_option_with_style_edition_default! invocations (src/config/options.rs):
+    the macro-generated impls share one MIR name, their bodies are printed in definition order."""
+    txt = open(os.path.join(REPO, 'src/config/options.rs')).read()
+    txt = re.sub(r'//[^\n]*', '', txt)
+    return re.findall(r'(?m)^\s*([A-Z]\w*),\s*([A-Za-z][\w:<>]*),\s*(Edition\d+\s*=>|_\s*=>)', txt)
+
+
+def part_release_defaults(ctx, eng):
+    """Config::default_with_style_edition(se) executed for a symbolic released style edition; each option's value is compared with the value the
+    pinned release printed for that edition (frozen in /verif/reference by tools/c09_freeze.py)."""
+    ref = json.load(open(REFERENCE))
+    frozen = ref['defaults']
+    se_v = eng.enum_variants('StyleEdition')
+    rel_idx = {e: se_v.index('Edition' + e) for e in RELEASED}
+    decl = declared_defaults(eng)
+    groups = []          # one group of bodies per macro arm (the arms are distinct impl spans, hence distinct MIR names)
+    for r in eng.records:
+        if not (r['is_plain'] and r['method'] == 'style_edition_default'):
+            continue
+        g = [fn for fn in eng.mirs[r['mir']].get_all(r['name']) if len(fn.params) == 1 and fn.raw.startswith('fn ') and 'MIR FOR CTFE' not in fn.raw]
+        if g:
+            groups.append(g)
+    arms = {}
+    for nm, ty, arm in decl:
+        arms.setdefault('gated' if arm.startswith('Edition') else 'plain', []).append((nm, ty))
+    by_ty = {}
+    used = set()
+    for arm, lst in arms.items():
+        match = [gi for gi, g in enumerate(groups) if gi not in used and len(g) == len(lst)
+                 and all((fn.ret_ty or '').split('::')[-1].strip() == ty.split('::')[-1].strip() for (nm, ty), fn in zip(lst, g))]
+        if len(match) != 1:
+            raise Inconclusive('release defaults: the %d %s declarations of src/config/options.rs do not line up with one group of style_edition_default bodies (groups: %s)'
+                               % (len(lst), arm, [len(g) for g in groups]))
+        used.add(match[0])
+        for (nm, ty), fn in zip(lst, groups[match[0]]):
+            by_ty[nm] = fn
+    if len(used) != len(groups):
+        raise Inconclusive('release defaults: %d groups of style_edition_default bodies, %d matched' % (len(groups), len(used)))
+    old = (eng.lenient, eng.inline_only, list(eng.stubs))
+    eng.lenient = True
+    eng.inline_only = [re.compile(r'default_with_style_edition$'), re.compile(r'WidthHeuristics::scaled$|^scaled$')]
+
+    def dispatch(e, s_, a, c):
+        m = re.match(r'^<(?:[\w:]*::)?(\w+) as (?:[\w:]*::)?StyleEditionDefault>::style_edition_default$', c.func)
+        if not m or m.group(1) not in by_ty:
+            raise Unsupported('style_edition_default of %s' % c.func)
+        res = []
+        for o in e.exec_fn(s_, by_ty[m.group(1)], list(a)):
+            res.append((o.state, 'ret', o.value) if o.kind == 'ret' else (o.state, o.kind, o.info))
+        return res
+    eng.stub(r'as (?:[\w:]*::)?StyleEditionDefault>::style_edition_default$', dispatch, '<X as StyleEditionDefault>::style_edition_default -> the body declared for X (source order)')
+    eng.stub(r'Cell::<bool>::new$', lambda e, s_, a, c: a[0], 'Cell::new')
+    from mirsym.config import config_layout
+    lay = config_layout(eng)
+    ctor = [r['name'] for r in eng.records if r['method'] == 'default_with_style_edition']
+    if len(ctor) != 1:
+        raise Inconclusive('Config::default_with_style_edition not found')
+    se = z3.BitVec('style_edition', 64)
+    st = State()
+    st.assume(z3.Or([se == i for i in rel_idx.values()]))
+    try:
+        outs = ctx.check_outcomes(eng.run(ctor[0], [Enum('StyleEdition', se, {})], st), 'default_with_style_edition')
+    finally:
+        eng.lenient, eng.inline_only, eng.stubs = old
+    rp = make_defaults_replay(ctx)
+    compared, skipped = 0, []
+    for name in sorted(lay):
+        if name not in frozen or name in ('style_edition', 'required_version'):
+            skipped.append(name)
+            continue
+        idx = lay[name][0]
+        vio = []
+        ok = True
+        for o in outs:
+            if o.kind != 'ret':
+                ctx.prop('release-defaults/no-panic', o.state.pc, z3.BoolVal(True), [se], rp, twin=False)
+                continue
+            v = o.value.items[idx].items[2]
+            per = []
+            for e_, i in rel_idx.items():
+                want = frozen[name][e_]
+                if isinstance(v, BV) and isinstance(want, int) and not isinstance(want, bool):
+                    per.append(z3.And(se == i, v.e != want))
+                elif z3.is_bool(v) and isinstance(want, bool):
+                    per.append(z3.And(se == i, v != z3.BoolVal(want)))
+                elif isinstance(v, Enum) and isinstance(want, str):
+                    vs = eng.enum_variants(v.name) or []
+                    cand = [k for k, x in enumerate(vs) if x == want or x == 'Edition' + want]
+                    if len(cand) != 1:
+                        raise Inconclusive('release defaults: %s = %r is not a variant of %s' % (name, want, v.name))
+                    per.append(z3.And(se == i, v.discr != cand[0]))
+                else:
+                    ok = False
+            if ok:
+                vio.append(z3.And(z3.And(o.state.pc) if o.state.pc else z3.BoolVal(True), z3.Or(per)))
+        if not ok:
+            skipped.append(name)
+            continue
+        compared += 1
+        ctx.prop('release-defaults/%s/every-released-style-edition-has-the-default-of-the-pinned-release' % name, [], z3.Or(vio), [se], rp, twin=False)
+    if compared < 60:
+        raise Inconclusive('release defaults: only %d options compared' % compared)
+    ctx.notes.append('release defaults: %d options x %d released style editions compared with the frozen table of %s; not compared (structured or build-dependent values): %s'
+                     % (compared, len(RELEASED), ref['commit'][:7], ', '.join(skipped)))
+
+
+def make_defaults_replay(ctx):
+    def replay(model, r):
+        ref = json.load(open(REFERENCE))['defaults']
+        bins = ensure_bins()
+        d = os.path.join(BUILD, 'scratch', 'c09d-%d' % os.getpid())
+        shutil.rmtree(d, ignore_errors=True)
+        os.makedirs(d)
+        found = []
+        for e_ in RELEASED:
+            pr = subprocess.run([os.path.join(bins, 'rustfmt'), '--style-edition', e_, '--print-config', 'current', d], capture_output=True, text=True, env=run_env(), cwd=d, timeout=60)
+            for ln in pr.stdout.splitlines():
+                k, _, v = ln.partition(' = ')
+                if k in ref and k != 'required_version' and e_ in ref[k]:
+                    try:
+                        got = json.loads(v)
+                    except ValueError:
+                        got = v
+                    if got != ref[k][e_]:
+                        found.append('style edition %s: %s defaults to %s, the pinned release has %s' % (e_, k, v, json.dumps(ref[k][e_])))
+        shutil.rmtree(d, ignore_errors=True)
+        return {'reproduced': bool(found), 'detail': found[:6]}
+    return replay
+
+
+# ----------------------------------------------------------------------------- (e) the scaled width heuristics = the pinned release's computation
+RELEASE_WIDTHS = {'fn_call_width': 60, 'attr_fn_like_width': 70, 'struct_lit_width': 18, 'struct_variant_width': 35, 'array_width': 60, 'chain_width': 60,
+                  'single_line_if_else_max_width': 50, 'single_line_let_else_max_width': 50}
+
+
+def part_release_widths(ctx, eng):
+    """WidthHeuristics::scaled(max_width) for every max_width in 20..=10000 against the release's computation, written independently in IEEE
+    binary32: ratio = max_width > 100 ? roundTiesAway(max_width / 100 * 10) / 10 : 1, width = trunc(roundTiesAway(base * ratio))."""
+    sc = eng.find('scaled', self_ty='WidthHeuristics', file='src/config/options.rs')
+    wf = [n for n, _ in eng.src.struct_fields('WidthHeuristics', 'src/config/options.rs')]
+    mw = z3.BitVec('max_width', 64)
+    F = z3.Float32()
+    rne = z3.RNE()
+    f = lambda x: z3.FPVal(float(x), F)
+    q = z3.fpDiv(rne, z3.fpUnsignedToFP(rne, mw, F), f(100))
+    ratio = z3.If(z3.UGT(mw, 100), z3.fpDiv(rne, z3.fpRoundToIntegral(z3.RNA(), z3.fpMul(rne, q, f(10))), f(10)), f(1))
+    outs = ctx.check_outcomes(eng.run(sc, [BV(mw, 'usize')], State()), 'scaled')
+    rp = make_widths_replay(ctx)
+    hi = 10000
+    for fi_, fname in enumerate(wf):
+        if fname not in RELEASE_WIDTHS:
+            raise Inconclusive('release widths: WidthHeuristics has a field %s the pinned release does not have' % fname)
+        want = z3.fpToUBV(z3.RTZ(), z3.fpRoundToIntegral(z3.RNA(), z3.fpMul(rne, f(RELEASE_WIDTHS[fname]), ratio)), z3.BitVecSort(64))
+        vio = []
+        for o in outs:
+            if o.kind != 'ret':
+                ctx.prop('release-widths/no-panic', o.state.pc + [z3.UGE(mw, 20), z3.ULE(mw, hi)], z3.BoolVal(True), [mw], rp, twin=False)
+                continue
+            vio.append(z3.And(z3.And(o.state.pc) if o.state.pc else z3.BoolVal(True), o.value.items[fi_].e != want))
+        ctx.prop('release-widths/%s/scaled-equals-the-computation-of-the-pinned-release' % fname, [z3.UGE(mw, 20), z3.ULE(mw, hi)], z3.Or(vio), [mw], rp, twin=False)
+
+
+def make_widths_replay(ctx):
+    def replay(model, r):
+        import numpy as np
+        bins = ensure_bins()
+        d = os.path.join(BUILD, 'scratch', 'c09e-%d' % os.getpid())
+        shutil.rmtree(d, ignore_errors=True)
+        os.makedirs(d)
+        mws = [v for k, v in (model or {}).items() if k == 'max_width' and isinstance(v, int)] + [101, 104, 105, 115, 125, 149, 151, 175, 199, 1005]
+        found = []
+        for m_ in mws[:8]:
+            f32 = np.float32
+            ratio = f32(np.floor(f32(m_) / f32(100) * f32(10) + f32(0.5))) / f32(10) if m_ > 100 else f32(1)
+            pr = subprocess.run([os.path.join(bins, 'rustfmt'), '--config', 'max_width=%d' % m_, '--print-config', 'current', d], capture_output=True, text=True, env=run_env(), cwd=d, timeout=60)
+            got = dict(ln.split(' = ', 1) for ln in pr.stdout.splitlines() if ' = ' in ln)
+            for k, base in RELEASE_WIDTHS.items():
+                want = int(np.floor(f32(base) * ratio + f32(0.5)))
+                if k in got and int(got[k]) != want:
+                    found.append('max_width=%d: %s = %s, the pinned release computes %d' % (m_, k, got[k], want))
+        shutil.rmtree(d, ignore_errors=True)
+        return {'reproduced': bool(found), 'detail': found[:6]}
+    return replay
+
+
+# ----------------------------------------------------------------------------- (f) ordering of modules and extern crates per released style edition
+ORDERING_INPUTS = {
+    'mods': 'mod x10;\nmod x9;\nmod x2;\nmod X1;\nmod x_a;\nmod x01;\nmod x1;\n',
+    'extern_crates': 'extern crate c10;\nextern crate c9;\nextern crate c2;\nextern crate C1;\nextern crate c01;\n',
+    'extern_crate_aliases': 'extern crate foo as x10;\nextern crate foo as x9;\nextern crate foo as x2;\nextern crate foo;\nextern crate foo as x01;\n',
+    'extern_crate_names_and_aliases': 'extern crate b10 as m;\nextern crate b9 as n;\nextern crate b9 as k10;\nextern crate b9 as k9;\nextern crate b9;\n',
+}
+ORDERING_REFERENCE = os.path.join(VERIF, 'reference', 'c09_release_ordering.json')
+
+
+def part_release_ordering(ctx, eng):
+    """reorder.rs::compare_items, executed under-constrained over two arbitrary items: the pinned release compares names as plain strings up to
+    style edition 2021 and with version_sort from 2024.  The two comparators are environment (their own properties are C11's); which one a
+    path consults is observed, the style edition is symbolic over the released ones."""
+    name = eng.find('compare_items', free=True)
+    se_v = eng.enum_variants('StyleEdition')
+    se = z3.BitVec('style_edition', 64)
+    old = (eng.lenient, eng.inline_only, list(eng.stubs), eng.inline_pred)
+    eng.lenient = True
+    eng.stubs = []
+    eng.inline_only = [re.compile(r'^compare_items$|^compare_items::')]
+    home = eng.fn_file(name)
+
+    def small_helper(e, nm, callee):
+        # helpers of the same file that only choose between the comparators (a refactoring may move the edition test into one)
+        try:
+            return e.fn_file(nm) == home and len(e.get_fn(nm).blocks) <= 14 and not re.search(r'version_sort', nm)
+        except Exception:
+            return False
+    eng.inline_pred = small_helper
+
+    def ordering(tag):
+        def f(e, s_, a, c):
+            s_.trace.append((tag,))
+            d = z3.BitVec(e.fresh_name(tag + '.result'), 64)
+            s_.assume(z3.Or(d == -1, d == 0, d == 1))
+            return Enum('Ordering', d, {})
+        return f
+    eng.stub(r'(^|::)version_sort$', ordering('version_sort'), 'version_sort(a, b) = an arbitrary Ordering, observed')
+    eng.stub(r'^<str as (std::cmp::)?Ord>::cmp$|^core::str::<impl (std::cmp::)?Ord for str>::cmp$|impl Ord for str>::cmp$', ordering('str_cmp'), '<str as Ord>::cmp = an arbitrary Ordering, observed')
+    eng.stub(r'Config::style_edition$', lambda e, s_, a, c: Enum('StyleEdition', se, {}), 'config.style_edition() = symbolic')
+    pcmp = eng.find('partial_cmp', self_ty='StyleEdition', file='src/config/options.rs', trait='PartialOrd')
+
+    def span_edition_cmp(eng_, st_, args, ci):
+        a, b = (deref(eng_, st_, x) for x in args)
+        d = z3.If(a.discr < b.discr, z3.BitVecVal(-1, 64), z3.If(a.discr == b.discr, z3.BitVecVal(0, 64), z3.BitVecVal(1, 64)))
+        return Enum('Option', 1, {1: Tup([Enum('Ordering', d, {})])})
+    eng.stub(r'rustc_span::edition::Edition as (std::cmp::)?PartialOrd>::partial_cmp$|^rustc_span::edition::Edition::partial_cmp$|Edition as PartialOrd>::partial_cmp$', span_edition_cmp,
+             'rustc_span Edition::partial_cmp = derived discriminant order')
+
+    def se_compare(e, s_, a, c):
+        # lt / le / gt / ge on StyleEdition are the provided methods of PartialOrd over the crate's own partial_cmp, whose MIR is executed
+        op = re.search(r'::(lt|le|gt|ge)$', c.func).group(1)
+        old_inl = e.inline_only
+        e.inline_only = None
+        try:
+            res = []
+            for o in e.exec_fn(s_, e.get_fn(pcmp), [a[0], a[1]]):
+                if o.kind != 'ret':
+                    res.append((o.state, o.kind, o.info))
+                    continue
+                v = o.value
+                ordd = v.payloads[1].items[0].discr if 1 in v.payloads else z3.BitVecVal(0, 64)
+                some_ = v.discr == 1
+                r_ = {'lt': z3.And(some_, ordd == -1), 'le': z3.And(some_, ordd != 1), 'gt': z3.And(some_, ordd == 1), 'ge': z3.And(some_, ordd != -1)}[op]
+                res.append((o.state, 'ret', r_))
+            return res
+        finally:
+            e.inline_only = old_inl
+    eng.stub(r'StyleEdition as (std::cmp::)?PartialOrd>::(lt|le|gt|ge)$', se_compare, 'StyleEdition <, <=, >, >= through the real partial_cmp MIR')
+    rp = make_ordering_replay(ctx)
+    try:
+        fn = eng.get_fn(name)
+        st = State()
+        rel = [se_v.index('Edition' + e) for e in RELEASED]
+        st.assume(z3.Or([se == i for i in rel]))
+        args = [eng.fresh_of_type(st, ty, 'arg.%s' % pn) for pn, ty in fn.params]
+        outs = ctx.check_outcomes(eng.run(name, args, st), 'compare_items', allow_panic=True)
+    finally:
+        eng.lenient, eng.inline_only, eng.stubs, eng.inline_pred = old
+    old_style = z3.Or([se == se_v.index('Edition' + e) for e in ('2015', '2018', '2021')])
+    n_cmp = n_vs = 0
+    for pi, o in enumerate(outs):
+        if o.kind != 'ret':
+            continue
+        used = {t[0] for t in o.state.trace if t[0] in ('version_sort', 'str_cmp')}
+        if 'version_sort' in used:
+            n_vs += 1
+            ctx.prop('release-ordering/compare_items/p%d/version_sort-is-not-consulted-up-to-style-edition-2021' % pi, o.state.pc, old_style, [se], rp, twin=False)
+        if 'str_cmp' in used:
+            n_cmp += 1
+            ctx.prop('release-ordering/compare_items/p%d/plain-string-order-is-not-consulted-from-style-edition-2024' % pi, o.state.pc, z3.Not(old_style), [se], rp, twin=False)
+    if not n_cmp or not n_vs:
+        raise Inconclusive('release ordering: compare_items consults str::cmp on %d and version_sort on %d paths (expected both): the harness no longer matches the code' % (n_cmp, n_vs))
+    ctx.notes.append('release ordering: compare_items, %d paths; %d consult <str as Ord>::cmp, %d consult version_sort' % (len(outs), n_cmp, n_vs))
+
+
+def make_ordering_replay(ctx):
+    def replay(model, r):
+        ref = json.load(open(ORDERING_REFERENCE))
+        bins = ensure_bins()
+        d = os.path.join(BUILD, 'scratch', 'c09f-%d' % os.getpid())
+        shutil.rmtree(d, ignore_errors=True)
+        os.makedirs(d)
+        found = []
+        for nm, src in ref['inputs'].items():
+            p_ = os.path.join(d, nm + '.rs')
+            open(p_, 'w').write(src)
+            for e_ in RELEASED:
+                pr = subprocess.run([os.path.join(bins, 'rustfmt'), '--emit', 'stdout', '--quiet', '--config', 'skip_children=true', '--style-edition', e_, p_], capture_output=True, text=True, env=run_env(), cwd=d, timeout=60)
+                if pr.stdout != ref['outputs'][nm][e_]:
+                    found.append('style edition %s, input %s: output differs from what the pinned release (%s) prints: %r' % (e_, nm, ref['commit'][:7], pr.stdout[:160]))
+        shutil.rmtree(d, ignore_errors=True)
+        return {'reproduced': bool(found), 'detail': found[:4]}
+    return replay
 
 
 # ----------------------------------------------------------------------------- native: the three editions on a corpus
